@@ -282,11 +282,20 @@ def replace(run, m, F, E, L):
                 if env is not None or s2.is_ge0(e[5] - 1) is False:
                     p1.append('substring search is called with an empty pattern (line %d)%s' % (e[1].line, '; witness ' + own.fmt_env(env) if env else ''))
             if not (isinstance(e[4], PtrV) and e[4].obj == fsto.obj and s2.is_eq0(e[5] - fl) is True):
-                p3.append('search at line %d is not for (from.c_str(), from.size())' % e[1].line)
+                if isinstance(e[4], PtrV) and e[4].obj is not None and e[4].obj != fsto.obj:
+                    p3.append('search at line %d is not for the pattern `from` (it searches for %r)' % (e[1].line, e[4]))
+                else:
+                    d9 = e[5] - fl
+                    env = s2.find_model([d9], lambda v: v[0] != 0) if robust([d9]) else None
+                    (p3 if env is not None else und).append('search at line %d is for %r units, the pattern is from.size() long%s' %
+                                                            (e[1].line, e[5], '; witness ' + own.fmt_env(env) if env else ' (not decided)'))
             hay, hl = e[2], e[3]
             if isinstance(hay, PtrV) and hay.obj == sto.obj and hl is not None:
-                if s2.is_eq0(hay.off + hl - sto.off - s) is not True:
-                    p3.append('search at line %d does not cover [cursor, end of the string)' % e[1].line)
+                d9 = hay.off + hl - sto.off - s
+                if s2.is_eq0(d9) is not True:
+                    env = s2.find_model([d9], lambda v: v[0] != 0) if robust([d9]) else None
+                    (p3 if env is not None else und).append('search at line %d does not cover [cursor, end of the string): it ends %r units from the end%s' %
+                                                            (e[1].line, d9, '; witness ' + own.fmt_env(env) if env else ' (not decided)'))
         if o.kind == 'ret' and not [e for e in s2.events if e[0] == 'search']:
             # a result produced without looking for `from` at all: fine when the text or the pattern is empty, or when `from` and
             # `to` are the same bytes (substituting a pattern by itself); a comparison that ignores case does not justify it
